@@ -250,6 +250,71 @@ def cli_presentations(ctx, tspecs, k, rw_name, rnd, workdir, hashseeds):
                             f"presentation {p} (PYTHONHASHSEED={hs}, other order/duplicates/batching): {d}\n--- first\n{text0[:900]}\n--- other\n{text[:900]}", raise_=False)
 
 
+def _overlap_classes():
+    import barnmfoo
+    import fxh
+    import mytyping
+    import nmfoo
+    import nmpkg.nmutils as pn
+    import nmutils
+    return [nmutils.A, nmutils.Outer.Nested, pn.B, pn.Outer2.Nested2, nmfoo.Baz, barnmfoo.Qux, mytyping.Lst, fxh.D1, nmutils.nmutils]
+
+
+def overlap_presentations(ctx, picks, workdir, hashseeds):
+    """signatures that mention classes of modules whose names overlap textually (nmutils / nmpkg.nmutils, nmfoo / barnmfoo,
+    mytyping / typing), one type per position (no unions anywhere, so the text of every annotation is determined): the
+    annotations and the import table must not vary with the process. Whether the names resolve is C11's business; here the
+    texts are compared."""
+    from typing import Dict, List
+    import fx_target as t
+    cl = _overlap_classes()
+    c = [cl[i % len(cl)] for i in picks]
+    traces = [CallTrace(t.pair, {"p_pair1": c[0], "p_pair2": c[1]}, type(None), None),
+              CallTrace(t.second, {"p_first": List[c[2]], "p_second": c[3]}, Dict[str, c[1]], None),
+              CallTrace(t.C.m, {"p_m": c[4]}, c[5], None),
+              CallTrace(t.gen, {"p_gen1": c[0], "p_gen2": c[5]}, type(None), c[2])]
+    spec = ["OVERLAP", list(picks)]
+    ctx.case(spec, True, ["cli-cross-process", "overlapping-module-names"])
+    db = os.path.join(workdir, "overlap.sqlite3")
+    if os.path.exists(db):
+        os.unlink(db)
+    st_ = SQLiteStore.make_store(db)
+    st_.add(traces)
+    st_.conn.close()
+    seen = []
+    for hs in hashseeds:
+        env = dict(os.environ, MTV_DB=db, MTV_K="0", MTV_RW="noop", PYTHONHASHSEED=str(hs))
+        pr = subprocess.run([sys.executable, "-m", "monkeytype", "-c", "fx_cfg:CONFIG", "stub", "fx_target"], env=env, capture_output=True, text=True, cwd=workdir)
+        if pr.returncode != 0 or not pr.stdout.strip():
+            if "Traceback" in pr.stderr:
+                ctx.label("skipped:cli-crash(C07/C12 own crashes)")
+                return
+            raise core.HarnessError(f"stub subprocess failed: rc={pr.returncode} {pr.stderr[-800:]}")
+        try:
+            tree = ast.parse(pr.stdout)
+        except SyntaxError:
+            ctx.label("skipped:stub-not-canonicalisable(C11/C12 findings)")
+            return
+        annos, imports = {}, set()
+        for node in ast.walk(tree):
+            if isinstance(node, (ast.FunctionDef, ast.AsyncFunctionDef)):
+                a = node.args
+                for arg in a.posonlyargs + a.args + a.kwonlyargs:
+                    annos[(node.name, arg.arg)] = None if arg.annotation is None else ast.unparse(arg.annotation)
+                annos[(node.name, "return")] = None if node.returns is None else ast.unparse(node.returns)
+            elif isinstance(node, ast.ImportFrom):
+                imports |= {(node.module, a.name) for a in node.names}
+            elif isinstance(node, ast.Import):
+                imports |= {(a.name, None) for a in node.names}
+        seen.append((hs, annos, imports, pr.stdout))
+    hs0, a0, i0, t0 = seen[0]
+    for hs, a, i, text in seen[1:]:
+        if a != a0 or i != i0:
+            d = sorted(k for k in set(a) | set(a0) if a.get(k) != a0.get(k))
+            return ctx.fail("C14/stub-depends-on-presentation-or-process", spec,
+                            f"same store, PYTHONHASHSEED={hs0} vs {hs}: annotations differ at {d[:4]} / imports differ: {sorted(i ^ i0, key=str)[:4]}\n--- first\n{t0[:700]}\n--- other\n{text[:700]}", raise_=False)
+
+
 def shard(ctx):
     q = ctx.tier == "quick"
     workdir = tempfile.mkdtemp(prefix="c14-")
@@ -290,6 +355,8 @@ def shard(ctx):
         rnd = random.Random(ctx.shard_seed(10))
         for tspecs, k, rw in sets:
             cli_presentations(ctx, tspecs, k, rw, rnd, workdir, [0, 1, 2, 3] if q else [0, 1, 2, 3, 4, 5, 6, 7, 8, 9, 10, 11])
+        for _ in range(1 if q else 4):
+            overlap_presentations(ctx, [rnd.randrange(0, 9) for _ in range(6)], workdir, [0, 1, 2, 3, 4] if q else list(range(12)))
     finally:
         shutil.rmtree(workdir, ignore_errors=True)
 
@@ -299,7 +366,13 @@ def run(ctx):
 
 
 def replay(ctx, case):
-    if case[0] == "INPROC":
+    if case[0] == "OVERLAP":
+        d = tempfile.mkdtemp(prefix="c14-")
+        try:
+            overlap_presentations(ctx, case[1], d, list(range(8)))
+        finally:
+            shutil.rmtree(d, ignore_errors=True)
+    elif case[0] == "INPROC":
         in_process(ctx, case[1], case[2], case[3], random.Random(0))
     else:
         d = tempfile.mkdtemp(prefix="c14-")
